@@ -136,6 +136,7 @@ class Hub:
         self.on_step = on_step
         self.expect_widths = expect_widths
         self.proc_globals = []
+        self.demoted = []
 
     def spawn(self, name, fn, proc=None, kind="thread"):
         a = Actor(self, name, fn, proc or self.current.proc, kind)
@@ -183,6 +184,9 @@ class Hub:
             en = sorted(en, key=key)
         else:
             raise KeyError(self.policy)
+        if self.demoted:
+            # demoted actors (schedule choice "D") run only when nothing else can
+            en = [a for a in en if a not in self.demoted] + [a for a in en if a in self.demoted]
         return en
 
     def switch_in(self, a):
@@ -232,6 +236,14 @@ class Hub:
             en = self.order(en)
             i = len(self.widths)
             c = self.schedule.get(i, 0)
+            if c == "D":
+                # "long preemption": the actor the policy would run now is descheduled until nothing else is enabled
+                # (one deviation; what a preemption means under a non-preemptive scheduler, CHESS-style)
+                if len(en) < 2:
+                    raise Nondeterminism(f"step {i}: schedule demotes the default actor but it is the only enabled one")
+                self.demoted.append(en[0])
+                en = en[1:] + en[:1]
+                c = 0
             if c >= len(en):
                 raise Nondeterminism(f"step {i}: schedule asks for choice {c} but only {len(en)} actors are enabled")
             if self.expect_widths is not None and i < len(self.expect_widths) and self.expect_widths[i] != len(en):
